@@ -419,6 +419,7 @@ func TestReplay(t *testing.T) {
 			r := &runner{dir: dir, id: filepath.Join(dir, "round"), rnd: rand.New(rand.NewSource(seed*1000003 + int64(idx)*131 + int64(vi))),
 				payloads: map[int][]byte{}, byData: map[string]int{}}
 			id := fmt.Sprintf("b%d.v%d", idx, vi)
+			out.Begin(id, "wal:crash")
 			vd := r.run(steps, v)
 			os.RemoveAll(dir)
 			switch vd.kind {
